@@ -1,6 +1,7 @@
 package main
 
 import (
+	"time"
 	"encoding/hex"
 	"fmt"
 	"strings"
@@ -556,6 +557,21 @@ func genC03(g *Gen) {
 	} {
 		c03Case(g, s)
 		g.Count("fixed")
+	}
+
+	// 0b. long inputs: the last token lies beyond 64 KiB and beyond 1 MiB (every tier), beyond 4 MiB (thorough tier) — an input limit, a fixed-size buffer or a work cap
+	// silently evaluates a prefix
+	sizes := []int{65536, 1 << 20}
+	if g.Thorough {
+		sizes = append(sizes, 1<<22)
+	}
+	for _, n := range sizes {
+		head := "x = 1 + 1\nreturn x"
+		t0 := time.Now()
+		c03Case(g, head+strings.Repeat(" ", n-len(head))+"+ x\n")
+		c03Case(g, head+" + "+strings.Repeat("(", 3)+strings.Repeat(" ", n-len(head))+"x"+strings.Repeat(")", 3)+" + x\n")
+		g.Count("long-input")
+		g.Stats[fmt.Sprintf("long-input-%d-ms", n)] = int(time.Since(t0) / time.Millisecond)
 	}
 
 	// 1. generated well-formed scripts
